@@ -247,7 +247,9 @@ Error BaseEmitter::_emit_op_array(InstId inst_id, const Operand_* operands, size
       return _emit(inst_id, op[0], op[1], op[2], op + 3);
 
     default:
-      return make_error(Error::kInvalidArgument);
+      // An emit that is refused - consume the one-shot state and report like every other refused emit.
+      reset_state();
+      return report_error(make_error(Error::kInvalidArgument));
   }
 }
 
